@@ -221,6 +221,13 @@ def run(ctx):
         if any(g[1] != len(g[2]) for g in b["rgs"]):
             ctx.fail({"component": "row-count-metadata", "what": "count"}, dcase,
                      "num_rows of a row group differs from the rows its chunks deliver: %r" % [(g[1], len(g[2])) for g in b["rgs"]])
+        # what was written is what the row groups hold (C01's subject; here it guards the instantiation of `rows`):
+        # without fabricated descriptors the ids of all row groups are 0..N-1, each once; in a simple file in written order
+        n = sum(ds["sizes"])
+        ids = [i for g in b["rgs"] for i in g[2]]
+        if not ds["fab"] and (sorted(ids) != list(range(n)) or (ds["scheme"] == "simple" and ids != list(range(n)))):
+            ctx.fail({"component": "row-group-read", "what": "cells"}, dcase,
+                     "the row groups read one by one do not hold the written rows 0..%d in order: %r" % (n - 1, ids[:40]))
         if b["total"] != b["full_len"]:
             ctx.fail({"component": "read", "terminal": "to_pandas", "what": "count"}, dcase,
                      "sum of num_rows %d but the full read has %d rows" % (b["total"], b["full_len"]))
